@@ -329,7 +329,9 @@ func verifC01Adopt(strategyKind int) {
 	noWrite := len(real) == 0
 
 	if s.revKind == 2 {
-		// unparsable recorded revision: nothing demanded by the property beyond not crashing
+		// unreadable recorded revision: "not higher than the ObjectSet's" cannot be established, so an object that is
+		// not already controlled by this owner stays untouched
+		verifrt.Assert(verifrt.Implies(verifrt.Not(s.specControlledByMe()), noWrite), "C01/unreadable-revision-untouched")
 		verifrt.Reach("garbage-revision")
 		return
 	}
